@@ -813,6 +813,10 @@ func (fx *FnExec) evalC(e ast.Expr, env *evalEnv) (cval, error) {
 				return cval{}, err
 			}
 			return cval{S: fmt.Sprint([]rune(s)[0]), Sort: "Int", T: types.Typ[types.Int]}, nil
+		case token.FLOAT:
+			// the same symbol the code's constant of that value gets (floats are uninterpreted)
+			cv := constant.MakeFromLiteral(x.Value, token.FLOAT, 0)
+			return cval{S: fx.W.floatConst(fx, cv.ExactString()), Sort: "F", T: types.Typ[types.Float64]}, nil
 		}
 		return cval{}, fmt.Errorf("unsupported literal %s", x.Value)
 	case *ast.Ident:
